@@ -572,6 +572,41 @@ fn run_h2_scenario(rt: &Arc<tokio::runtime::Runtime>, id: &str, mode: HandlerTas
                 }
             }
         }
+        // --- a client that reset some of its streams is still there: one more request on the
+        // same HTTP/2 connection is served like any other
+        if let H2Variant::Reset(n) = variant {
+            if n > 0 {
+                let c = 10 + k as u32;
+                let r = 2 * c;
+                reqs.push((r, c, "stay".into()));
+                if sender.ready().await.is_ok() {
+                    let req = http::Request::builder()
+                        .method("GET")
+                        .uri(format!("http://localhost/w/{}", r))
+                        .body(http_body_util::Empty::<bytes::Bytes>::new())
+                        .unwrap();
+                    ctx.log(Ev::ReqSent(c, r));
+                    ctx.release(r);
+                    match tokio::time::timeout(DEADLINE, sender.send_request(req)).await {
+                        Ok(Ok(rsp)) => {
+                            let st = rsp.status().as_u16();
+                            match tokio::time::timeout(DEADLINE, rsp.into_body().collect()).await {
+                                Ok(Ok(body)) => {
+                                    resp.push((r, st));
+                                    if st == 200 && body.to_bytes().as_ref() == b"ok" {
+                                        ctx.log(Ev::RespDelivered(r));
+                                    }
+                                }
+                                _ => resp.push((r, 0)),
+                            }
+                        }
+                        _ => resp.push((r, 0)),
+                    }
+                } else {
+                    late += 1;
+                }
+            }
+        }
         for (idx, c) in [(0usize, 1u32), (1, 2)] {
             if let Some(s) = h1[idx].take() {
                 let r = 2 * c;
